@@ -18,7 +18,10 @@ import (
 	"math/big"
 	"math/rand/v2"
 	"net"
+	"net/http"
+	"net/http/httptest"
 	"net/netip"
+	"net/url"
 	"os"
 	"path/filepath"
 	"regexp"
@@ -37,6 +40,7 @@ import (
 	"github.com/AdguardTeam/AdGuardDNS/internal/dnsserver"
 	"github.com/AdguardTeam/AdGuardDNS/internal/dnsserver/ratelimit"
 	"github.com/AdguardTeam/AdGuardDNS/internal/dnssvc"
+	"github.com/AdguardTeam/AdGuardDNS/internal/errcoll"
 	"github.com/AdguardTeam/AdGuardDNS/verifh/hlib"
 	"github.com/AdguardTeam/AdGuardDNS/verifh/hlib/stack"
 	"github.com/miekg/dns"
@@ -144,7 +148,7 @@ var fields = []field{
 	{"filters.sde_enabled", kT, "1", nil},
 	{"filters.rule_list_cache.enabled", kT, "1", nil},
 	{"filters.rule_list_cache.size", kI, "10000", nil},
-	{"interface_listeners.channel_buffer_size", kI, "1000", nil},
+	{"interface_listeners.channel_buffer_size", kI, "1000", []string{"35184372088820", "35184372088821", "35184372088832"}},
 	{"network.so_sndbuf", kB, "0", []string{"2147483646", "2147483647", "2147483648"}},
 	{"network.so_rcvbuf", kB, "0", []string{"2147483646", "2147483647", "2147483648"}},
 	// Second wave: strings that must not be empty, ports, DDR port consistency.
@@ -864,20 +868,20 @@ func tcpServiceable(s *agd.Server) (ok bool, panicked string) {
 		h := dnsserver.HandlerFunc(func(ctx context.Context, rw dnsserver.ResponseWriter, req *dns.Msg) error {
 			return rw.WriteMsg(ctx, req, mkResp(req, 40))
 		})
-		srv := dnsserver.NewServerDNS(dnsserver.ConfigDNS{
-			ConfigBase: dnsserver.ConfigBase{
-				Name: "verif", Addr: "127.0.0.1:0", Handler: h, Network: dnsserver.NetworkTCP, Metrics: pl,
-			},
-			// The verdict must not depend on scheduling: the configured
-			// (possibly nanosecond) timeouts are checked by the conversion
-			// comparison and by the constructor step, not here.
-			ReadTimeout:        2 * time.Second,
-			WriteTimeout:       2 * time.Second,
-			MaxUDPRespSize:     s.UDPConf.MaxRespSize,
-			TCPIdleTimeout:     2 * time.Second,
-			MaxPipelineCount:   s.TCPConf.MaxPipelineCount,
-			MaxPipelineEnabled: s.TCPConf.MaxPipelineEnabled,
-		})
+		// The production constructor of the listeners, dnssvc.NewListener, on
+		// the converted server.  The verdict must not depend on scheduling:
+		// the configured (possibly nanosecond) timeouts are checked by the
+		// conversion comparison and by the constructor step, not here.
+		tc := *s.TCPConf
+		tc.IdleTimeout = 2 * time.Second
+		s2 := &agd.Server{
+			Name: s.Name, Protocol: s.Protocol, TCPConf: &tc, UDPConf: s.UDPConf,
+			ReadTimeout: 2 * time.Second, WriteTimeout: 2 * time.Second,
+		}
+		srv, lerr := dnssvc.NewListener(s2, dnsserver.ConfigBase{
+			Name: "verif", Addr: "127.0.0.1:0", Handler: h, Network: dnsserver.NetworkTCP, Metrics: pl,
+		}, nil)
+		hlib.Must(lerr)
 		ctx := context.Background()
 		hlib.Must(srv.Start(ctx))
 		defer func() {
@@ -900,6 +904,10 @@ func tcpServiceable(s *agd.Server) (ok bool, panicked string) {
 
 	return ok, panicked
 }
+
+// chanAllocLimit is the number of pointer-sized elements from which makechan
+// refuses a buffer on a 64-bit platform: 8n > maxAlloc (2^48) - hchanSize (96).
+const chanAllocLimit = 1<<45 - 11
 
 type runner struct {
 	o   *hlib.Opts
@@ -984,7 +992,16 @@ func (rn *runner) runReal(k *kase, vs *vals) (oc outcome) {
 	ints := v.VerifC20Ints()
 	_, dbMax := v.VerifC20DNSDB()
 	sizes := []int{cc.NoECSCount, cc.ECSCount, dbMax}
-	for _, n := range ints {
+	const chanName = "interface_listeners.channel_buffer_size"
+	for name, n := range ints {
+		if name != chanName {
+			sizes = append(sizes, n)
+		}
+	}
+	// A channel of 2^45-11 pointers or more is refused by the runtime before
+	// anything is allocated (makechan: size out of range): that is decided by
+	// the configuration alone and is run on the real code.
+	if n := ints[chanName]; n > 1<<20 && n < chanAllocLimit {
 		sizes = append(sizes, n)
 	}
 	for _, n := range sizes {
@@ -1022,8 +1039,16 @@ func (rn *runner) runReal(k *kase, vs *vals) (oc outcome) {
 		{"lru", func() {
 			for _, name := range hlib.SortedKeys(ints) {
 				n := ints[name]
-				if name == "interface_listeners.channel_buffer_size" {
-					_ = make(chan struct{}, n)
+				if name == chanName {
+					// The real builder step that creates the channels of
+					// the interface listeners; its errors (duplicate
+					// listeners) belong to the cross-reference stage.
+					if q := catch(name, func() { _, _ = v.VerifC20InterfaceListeners(discard) }); q != "" {
+						panic(q)
+					}
+					if n >= chanAllocLimit {
+						rn.r.Count("real-huge-channel-buffer")
+					}
 
 					continue
 				}
@@ -1244,6 +1269,7 @@ func class(s string) string {
 }
 
 func (rn *runner) run(k *kase, m *hlib.Model) {
+	const chanName = "interface_listeners.channel_buffer_size"
 	r := rn.r
 	// Keys below a removed section are not in the file.
 	kept := k.muts[:0:0]
@@ -1280,7 +1306,11 @@ func (rn *runner) run(k *kase, m *hlib.Model) {
 				"documented constraint (value %q)", p, vs.v[p]), replay)
 		}
 		if strings.HasPrefix(oc.build, "panic") {
-			r.Violate("accepted-then-panic:"+firstOr(bad, "?"), "accepted configuration panics at start-up: "+oc.build, replay)
+			sig := "accepted-then-panic:" + firstOr(bad, "?")
+			if strings.Contains(oc.build, "makechan") && strings.Contains(oc.build, chanName) {
+				sig = "accepted-then-panic:huge-channel-buffer-size"
+			}
+			r.Violate(sig, "accepted configuration panics at start-up: "+oc.build, replay)
 		}
 		for i, h := range oc.handle {
 			q := queries[i]
@@ -1477,6 +1507,280 @@ func (rn *runner) limiterCampaign(m *hlib.Model) {
 	}
 }
 
+// Environment campaign ---------------------------------------------------------
+
+// envCase is the part of the process environment that the enumerations
+// check.kv.type and ratelimit.allowlist.type refer to.
+type envCase struct {
+	kvURL, rlURL, consulURL                string // absent | bad | good
+	kvSize, redisIdle, maxActive, maxIdle int64
+	redisAddr                              bool
+}
+
+func (e *envCase) line() string {
+	return fmt.Sprintf("env %s %s %s %d %s %d %d %d", e.kvURL, e.rlURL, e.consulURL, e.kvSize, b2s(e.redisAddr),
+		e.redisIdle, e.maxActive, e.maxIdle)
+}
+
+// envOffenders is the harness' own reading of doc/environment.md: which
+// variables the chosen types need and do not get.
+func envOffenders(kv, al string, e *envCase) (bad []string) {
+	switch kv {
+	case "backend":
+		if e.kvURL != "good" {
+			bad = append(bad, "DNSCHECK_REMOTEKV_URL")
+		}
+	case "cache":
+		if e.kvSize < 1 {
+			bad = append(bad, "DNSCHECK_CACHE_KV_SIZE")
+		}
+	case "redis":
+		if !e.redisAddr {
+			bad = append(bad, "REDIS_ADDR")
+		}
+		if e.redisIdle < 1 {
+			bad = append(bad, "REDIS_IDLE_TIMEOUT")
+		}
+		if e.maxActive < 0 {
+			bad = append(bad, "REDIS_MAX_ACTIVE")
+		}
+		if e.maxIdle < 0 {
+			bad = append(bad, "REDIS_MAX_IDLE")
+		}
+	}
+	if al == "consul" {
+		if e.consulURL != "good" {
+			bad = append(bad, "CONSUL_ALLOWLIST_URL")
+		}
+	} else if e.rlURL != "good" {
+		bad = append(bad, "BACKEND_RATELIMIT_URL")
+	}
+
+	return bad
+}
+
+var envVarNames = []string{"DNSCHECK_REMOTEKV_URL", "DNSCHECK_CACHE_KV_SIZE", "REDIS_ADDR", "REDIS_IDLE_TIMEOUT",
+	"REDIS_MAX_ACTIVE", "REDIS_MAX_IDLE", "BACKEND_RATELIMIT_URL", "CONSUL_ALLOWLIST_URL"}
+
+// canonEnvErr lists the variables an error text names, in the order of their
+// first appearance.
+func canonEnvErr(msg string) string {
+	type hit struct {
+		at   int
+		name string
+	}
+	var hits []hit
+	for _, n := range envVarNames {
+		if i := strings.Index(msg, n); i >= 0 {
+			hits = append(hits, hit{i, n})
+		}
+	}
+	sort.Slice(hits, func(i, j int) bool { return hits[i].at < hits[j].at })
+	var names []string
+	for _, h := range hits {
+		names = append(names, h.name)
+	}
+
+	return strings.Join(names, ";")
+}
+
+func mustURL(s string) *url.URL {
+	u, err := url.Parse(s)
+	hlib.Must(err)
+
+	return u
+}
+
+// envCampaign drives the checks of the environment that depend on the
+// enumerations of the configuration file, and the real builder steps that
+// dereference the selected variables: builder.initDNSCheck (newRemoteKV) and
+// builder.initRateLimiter (allowlist updater, refresh, connection limiter and
+// rate limiter as production creates them).
+func (rn *runner) envCampaign(m *hlib.Model, n int) {
+	r := rn.r
+	rng := rn.o.Rand("c20-env")
+	ts := httptest.NewServer(http.HandlerFunc(func(w http.ResponseWriter, _ *http.Request) {
+		w.Header().Set("Content-Type", "application/json")
+		_, _ = w.Write([]byte("[]"))
+	}))
+	defer ts.Close()
+	grpcURL, httpURL := "grpc://127.0.0.1:1", ts.URL
+	pickURL := func(st, good, bad string) *url.URL {
+		switch st {
+		case "good":
+			return mustURL(good)
+		case "bad":
+			return mustURL(bad)
+		}
+
+		return nil
+	}
+	states := []string{"absent", "bad", "good"}
+	kvs, als := []string{"backend", "cache", "consul", "redis"}, []string{"consul", "backend"}
+	nums := func(vals ...int64) int64 { return vals[rng.IntN(len(vals))] }
+	for i := 0; i < n; i++ {
+		kv, al := kvs[i%4], als[(i/4)%2]
+		e := &envCase{
+			kvURL: states[rng.IntN(3)], rlURL: states[rng.IntN(3)], consulURL: states[rng.IntN(3)],
+			kvSize: nums(-1, 0, 1, 1000), redisIdle: nums(-1, 0, 1, 30*sec), maxActive: nums(-1, 0, 10),
+			maxIdle: nums(-1, 0, 3), redisAddr: rng.IntN(3) > 0,
+		}
+		if rng.IntN(2) == 0 {
+			// Mostly usable environments, so that the builder steps run.
+			e.kvURL, e.rlURL, e.consulURL, e.kvSize, e.redisAddr = "good", "good", "good", 1000, true
+			e.redisIdle, e.maxActive, e.maxIdle = 30*sec, 10, 3
+			switch rng.IntN(9) {
+			case 0:
+				e.kvURL = states[rng.IntN(2)]
+			case 1:
+				e.rlURL = states[rng.IntN(2)]
+			case 2:
+				e.consulURL = states[rng.IntN(2)]
+			case 3:
+				e.kvSize = nums(-1, 0)
+			case 4:
+				e.redisAddr = false
+			case 5:
+				e.redisIdle = nums(-1, 0)
+			}
+		}
+		k := &kase{muts: []mut{{"check.kv.type", kv}, {"ratelimit.allowlist.type", al}}}
+		if rng.IntN(4) == 0 {
+			k.muts = append(k.muts, mut{"ratelimit.connection_limit.stop", "4000"},
+				mut{"ratelimit.connection_limit.resume", []string{"6", "7", "3999", "4000"}[rng.IntN(4)]})
+		}
+		if rng.IntN(6) == 0 {
+			k.muts = append(k.muts, mut{"ratelimit.connection_limit.enabled", "0"})
+		}
+		vs := k.vals()
+		canon := k.canon()
+		replay := map[string]any{"case": canon, "env": e.line(), "how": "the configuration as in the other replays; env: state " +
+			"of DNSCHECK_REMOTEKV_URL, BACKEND_RATELIMIT_URL, CONSUL_ALLOWLIST_URL (absent|bad scheme|good), then " +
+			"DNSCHECK_CACHE_KV_SIZE, REDIS_ADDR set, REDIS_IDLE_TIMEOUT (ns), REDIS_MAX_ACTIVE, REDIS_MAX_IDLE"}
+		v, perr := cmd.VerifC20Parse(k.render())
+		hlib.Must(perr)
+		hlib.Must(v.VerifC20Validate())
+		env := &cmd.VerifC20Env{
+			ConsulAllowlistURL:  pickURL(e.consulURL, httpURL, grpcURL),
+			BackendRateLimitURL: pickURL(e.rlURL, grpcURL, httpURL),
+			DNSCheckRemoteKVURL: pickURL(e.kvURL, grpcURL, httpURL),
+			BillStatURL:         mustURL(grpcURL),
+			ProfilesURL:         mustURL(grpcURL),
+			RedisIdleTimeout:    time.Duration(e.redisIdle),
+			DNSCheckCacheKVSize: int(e.kvSize),
+			RedisMaxActive:      int(e.maxActive),
+			RedisMaxIdle:        int(e.maxIdle),
+		}
+		if e.redisAddr {
+			env.RedisAddr = "127.0.0.1"
+		}
+		var verr error
+		verdict, build := "ok", ""
+		if p := catch("env-validate", func() { verr = v.VerifC20EnvValidate(env) }); p != "" {
+			verdict = p
+		} else if verr != nil {
+			verdict = "err " + canonEnvErr(verr.Error())
+			replay["real_error"] = verr.Error()
+		}
+
+		// Property oracle (model not consulted).
+		bad := envOffenders(kv, al, e)
+		switch {
+		case strings.HasPrefix(verdict, "panic"):
+			r.Violate("crash-instead-of-report:environment", verdict, replay)
+		case verdict == "ok":
+			for _, b := range bad {
+				r.Violate("env-accepted-unusable:"+b, "the start-up checks accept an environment in which "+b+
+					", which the configured type needs, is missing or unusable", replay)
+			}
+			ns := fmt.Sprintf("verifenv%d", i)
+			ctx, cancel := context.WithTimeout(context.Background(), 3*time.Second)
+			var stage string
+			var serr error
+			build = "ok"
+			if p := catch("initDNSCheck", func() {
+				stage, serr = v.VerifC20InitDNSCheck(ctx, env, discard, errcoll.NewWriterErrorCollector(io.Discard), ns)
+			}); p != "" {
+				build = p
+			} else if serr != nil && len(bad) == 0 {
+				r.Violate("startup-error-without-offender:"+stage, "the builder fails although the environment provides "+
+					"everything the configuration selects: "+serr.Error(), replay)
+			}
+			if build == "ok" {
+				var lims *cmd.VerifC20Limits
+				if p := catch("initRateLimiter", func() {
+					lims, stage, serr = v.VerifC20InitRateLimiter(ctx, env, discard, errcoll.NewWriterErrorCollector(io.Discard), ns+"r")
+				}); p != "" {
+					build = p
+				} else if serr != nil && al == "consul" && len(bad) == 0 {
+					r.Violate("startup-error-without-offender:"+stage, "the rate limiter cannot be built although the "+
+						"allowlist source answers: "+serr.Error(), replay)
+				} else if serr == nil {
+					r.Count("builder-ratelimiter-built")
+					// What production hands to the DNS service.
+					want := "0"
+					if vs.b("ratelimit.connection_limit.enabled") {
+						want = "1," + vs.s("ratelimit.connection_limit.stop") + "," + vs.s("ratelimit.connection_limit.resume")
+					}
+					got := "0"
+					if lims.ConnLimit != nil {
+						_, stop, resume, _ := connlimiter.VerifC18Snapshot(lims.ConnLimit)
+						got = fmt.Sprintf("1,%d,%d", stop, resume)
+					}
+					if got != want {
+						r.Violate("builder-miswired:connection_limit", fmt.Sprintf("the builder's connection limiter is %q, the "+
+							"file says %q", got, want), replay)
+					}
+					req := new(dns.Msg).SetQuestion("example.org.", dns.TypeA)
+					if p := catch("builder-ratelimit", func() {
+						drop, _, lerr := lims.RateLimit.IsRateLimited(ctx, req, netip.MustParseAddr("1.2.3.4"))
+						if drop || lerr != nil {
+							panic(fmt.Sprintf("first query dropped=%v err=%v", drop, lerr))
+						}
+						lims.RateLimit.CountResponses(ctx, mkResp(req, 3000), netip.MustParseAddr("2001:db8::1"))
+					}); p != "" {
+						r.Violate("accepted-then-query-panic:builder-ratelimit", p, replay)
+					}
+				}
+			}
+			cancel()
+			if strings.HasPrefix(build, "panic") {
+				r.Violate("accepted-then-panic:environment", "configuration and environment pass every start-up check and "+
+					"the builder panics: "+build, replay)
+			}
+		default:
+			named := false
+			for _, b := range bad {
+				named = named || strings.Contains(verdict, b)
+			}
+			if len(bad) == 0 {
+				r.Violate("env-rejected-without-offender", "the environment provides everything the configuration selects "+
+					"and is rejected: "+verdict, replay)
+			} else if !named {
+				r.Violate("env-reject-misnamed", fmt.Sprintf("the report %q names none of %v", verdict, bad), replay)
+			}
+		}
+
+		// Correspondence.
+		lines := []string{canon, e.line()}
+		if verdict == "ok" {
+			lines = append(lines, "envbuild")
+		}
+		ans := m.Batch(lines)
+		r.ModelOps += len(lines)
+		if ans[0] != "ok" {
+			r.Disagree("verdict", fmt.Sprintf("env case %q: real ok, model %q", canon, ans[0]), replay)
+		} else if ans[1] != verdict {
+			r.Disagree("env", fmt.Sprintf("case %q %q: real %q, model %q", canon, e.line(), verdict, ans[1]), replay)
+		} else if verdict == "ok" && class(ans[2]) != class(build) {
+			r.Disagree("envbuild", fmt.Sprintf("case %q %q: real %q, model %q", canon, e.line(), build, ans[2]), replay)
+		}
+		r.Count("env:" + class(verdict) + ":" + kv + "/" + al)
+		r.Case(canon+" | "+e.line(), true)
+		r.Traces++
+	}
+}
+
 func firstOr(l []string, def string) string {
 	if len(l) > 0 {
 		return l[0]
@@ -1540,6 +1844,11 @@ func main() {
 	}
 
 	rn.limiterCampaign(m)
+	if o.Thorough() {
+		rn.envCampaign(m, 2400)
+	} else {
+		rn.envCampaign(m, 320)
+	}
 
 	// The distributed example itself.
 	rn.run(&kase{}, m)
